@@ -1203,6 +1203,25 @@ impl PaZipCompressor {
     ) -> Result<usize> {
         self.apply_compression_strategy(input, pos, strategy, output)
     }
+
+    /// Verification hook: steps 3 and 4 of the per-position loop of `compress` for given
+    /// answers of the two match finders - `local` = (distance, length), `global` =
+    /// (dict_position, length). Returns the candidate strategies in the order they are
+    /// considered and the one that is selected.
+    pub fn verif_candidates(
+        &self,
+        local: Option<(usize, usize)>,
+        global: Option<(usize, usize)>,
+    ) -> Result<(Vec<CompressionStrategy>, CompressionStrategy)> {
+        let local_match = local.map(|(distance, length)| LocalMatch::new(length, distance, 0, 0));
+        let global_match = global.map(|(dict_position, length)| {
+            crate::compression::dict_zip::matcher::Match::new(length, dict_position, 0, false)
+        });
+        let strategies = self.calculate_strategy_costs(&[], 0, local_match, global_match)?;
+        let candidates = strategies.iter().map(|(s, _)| *s).collect();
+        let selected = self.select_optimal_strategy(strategies)?;
+        Ok((candidates, selected))
+    }
 }
 
 /// Helper trait to convert between match types
